@@ -65,6 +65,8 @@ func main() {
 		os.Exit(codecCmd(os.Args[2:]))
 	case "precompile":
 		os.Exit(precompileCmd(os.Args[2:]))
+	case "mcopy":
+		os.Exit(mcopyCmd(os.Args[2:]))
 	case "keytree":
 		os.Exit(keytreeCmd(os.Args[2:]))
 	}
